@@ -517,7 +517,7 @@ def check_simplegp(h: Harness):
     g = pargrammar.grammar()
     for target_u in (0, 0, 4000000, -350000, None):            # in units of 1e-5 (0 twice: once as int, once as float)
         for minimize in (True, False):
-            for hit_after in (0, 7):
+            for hit_after in (0, 7, 10**9):      # (10**9: a target that is never reached -- the evaluation budget ends the search)
                 pop, n = 4, 40
                 target = None if target_u is None else target_u * UNIT
                 if target_u == 0 and hit_after == 7:
